@@ -1131,6 +1131,7 @@ pub fn c03(tier: Tier) -> i32 {
     };
     explore_alpha("C03", &mut ctx, &env, &profiles::events(&["2"]), n_ev, &mut acc);
     explore_alpha("C03", &mut ctx, &env, &profiles::events_fx(), n_fx, &mut acc);
+    explore_alpha("C03", &mut ctx, &env, &profiles::events_same_day(), n_ev + 1, &mut acc);
     explore_alpha("C03", &mut ctx, &env, &profiles::events_reduced(), n_ev + 2, &mut acc);
     explore_alpha("C03", &mut ctx, &env, &profiles::two_sec(), n_two, &mut acc);
     explore_alpha("C03", &mut ctx, &env, &crate::perm::fills_alphabet(), n_two + 1, &mut acc);
@@ -1153,6 +1154,7 @@ pub fn c09(tier: Tier) -> i32 {
     };
     explore_alpha("C09", &mut ctx, &env, &profiles::two_sec(), n, &mut acc);
     explore_alpha("C09", &mut ctx, &env, &profiles::two_sec_fills(), n + 1, &mut acc);
+    explore_alpha("C09", &mut ctx, &env, &profiles::two_sec_fx(), n - 1, &mut acc);
     crate::text::c09_case_spellings(&mut ctx, &env, &mut acc);
     ctx.require(acc.get("combined-vs-singles-compared") > 0, "no accepted two-security ledger");
     ctx.require(acc.get("case-spellings-compared") > 0, "no case spelling compared");
@@ -1196,6 +1198,7 @@ pub fn c11(tier: Tier) -> i32 {
     explore_alpha("C11", &mut ctx, &env, &profiles::events_reduced(), n_ev + 2, &mut acc);
     explore_alpha("C11", &mut ctx, &env, &profiles::events_two_adj(), n_ev + 2, &mut acc);
     explore_alpha("C11", &mut ctx, &env, &profiles::events_fx(), n_ev, &mut acc);
+    explore_alpha("C11", &mut ctx, &env, &profiles::events_same_day(), n_ev + 1, &mut acc);
     for k in ["adjustment-differential(position>0)", "adjustment-before-any-acquisition", "dividend-differential", "cancelling-pair-inserted", "bracket:return-absorbable", "bracket:return-exceeds-all-expenditure"] {
         ctx.require(acc.get(k) > 0, &format!("no state exhibited {k}"));
     }
@@ -1218,6 +1221,18 @@ pub fn c12(tier: Tier) -> i32 {
     explore_alpha("C12", &mut ctx, &env, &profiles::two_sec(), n_two, &mut acc);
     explore_alpha("C12", &mut ctx, &env, &profiles::events(&["2"]), n_m, &mut acc);
     explore_alpha("C12", &mut ctx, &env, &profiles::match1_same_day(&["2"]), n_m + 1, &mut acc);
+    // calendar positions: the prefix BUY(D-100), SELL(D) for every day D of 2015-2026; its extensions are dated D+31,
+    // D+32, D+45 and on both sides of the next 5/6 April
+    {
+        let (from, to) = (alpha::date(2015, 1, 1), alpha::date(2026, 12, 31));
+        let mut prefixes = vec![];
+        let mut d = from;
+        while d <= to {
+            prefixes.push(vec![alpha::buy(d - Duration::days(100), "X", "10", "10", "1"), alpha::sell(d, "X", "4", "20", "0.4")]);
+            d += Duration::days(1);
+        }
+        explore_list("C12", &mut ctx, &env, "calendar-prefixes", prefixes, &mut acc, "BUY(D-100) SELL(D) for every D in 2015-01-01..2026-12-31, each with every extension");
+    }
     ctx.require(acc.get("extension-accepted") > 0 && acc.get("extension-rejected") > 0, "extensions must include accepted and rejected ones");
     ctx.bound = json!({"prefix_match1_max_events": n_m, "prefix_two_sec_max_events": n_two, "suffix_max_events": if tier == Tier::Quick { 1 } else { 2 }});
     ctx.explanation = "Edges prefix -> prefix+suffix of the ledger graph: for every accepted prefix, every sequence of up to k events from {BUY, SELL 3, SELL 99, SPLIT 2, UNSPLIT 2, DIVIDEND} dated T+31, T+32, T+45 (T = last prefix date) is appended and the real calculate() run again: every prefix disposal must reappear with identical leg list, cost and gain; totals of years that gained no disposal are unchanged; a refusal must be caused by (and name) an appended date. Every extension is run in two layouts (later lines after, or before, the existing lines). transitions = extensions executed.".into();
